@@ -124,7 +124,7 @@ var def = pbt.Def[resplife.Case]{Name: "responder-retirement", Gen: gen, Run: ju
 
 func TestProp(t *testing.T) {
 	outerT = t
-	pbt.Check(t, run, def, 8000, 800000)
+	pbt.Check(t, run, def, 8000, 400000)
 }
 
 func TestReplay(t *testing.T) {
